@@ -721,8 +721,15 @@ func evalIterateStmt(vm *r.VM, node *syntax.IterateStmt) error {
 			}
 		}
 	case *value.HashMap:
-		for _, key := range tv.GetKeyOrder() {
-			v := tv.GetValue()[key]
+		// the keys as they stand when the loop starts: the body may remove keys of this very
+		// dictionary (移除 shifts the key order in place) - a key removed by an earlier pass
+		// is skipped instead of binding the loop variable to nothing
+		keys := append([]string{}, tv.GetKeyOrder()...)
+		for _, key := range keys {
+			v, exists := tv.GetValue()[key]
+			if !exists {
+				continue
+			}
 			keyVar := value.NewString(key)
 			// handle interrupts
 			if err := execIterationBlockFn(keyVar, v); err != nil {
